@@ -173,8 +173,8 @@ def c01_units(tier, seed):
     ys = year_set(tier, seed)
     us = per_year("calendar.VH_C01_RoundTrip", "C01a", ys)
     us += per_year("calendar.VH_C01_Position", "C01b", ys)
-    ys2 = year_set(tier, seed, budget_quick=12) if tier == "quick" else ys[::4]
-    us += per_year("calendar.VH_C01_Step", "C01c", ys2, {"N": 45 if tier == "quick" else 400})
+    ys2 = year_set(tier, seed, budget_quick=8) if tier == "quick" else ys[::6]
+    us += per_year("calendar.VH_C01_Step", "C01c", ys2, {"N": 35 if tier == "quick" else 400})
     return us
 
 
@@ -183,13 +183,20 @@ def c06_units(tier, seed):
     if tier != "quick":
         ys = sorted(set(ys) | set(range(1, 9999, 7)))
     us = [dict(id=f"C06a[Y={Y}]", harness="calendar.VH_C06_Structure", params={"Y": Y}) for Y in ys]
-    us += [dict(id=f"C06b[Y={Y}]", harness="calendar.VH_C06_Navigate", params={"Y": Y, "N": 30 if tier == "quick" else 150}) for Y in ys if 14 <= Y <= 9980]
+    ysn = year_set(tier, seed, budget_quick=14) if tier == "quick" else ys[::3]
+    for Y in ysn:
+        if 14 <= Y <= 9980:
+            for k in range(13):
+                us.append(dict(id=f"C06b[Y={Y},k={k}]", harness="calendar.VH_C06_Navigate", params={"Y": Y, "N": 30 if tier == "quick" else 150, "K": k}))
     return us
 
 
 def c07_units(tier, seed):
     us = [dict(id="C07a", harness="calendar.VH_C07_NewSolar", params={"B": 1 << 31})]
-    us += [dict(id=f"C07b[Y={Y}]", harness="calendar.VH_C07_NewLunar", params={"Y": Y}) for Y in year_set(tier, seed)]
+    ys = year_set(tier, seed, budget_quick=16) if tier == "quick" else year_set(tier, seed)
+    for Y in ys:
+        for mo in range(-13, 14):
+            us.append(dict(id=f"C07b[Y={Y},mo={mo}]", harness="calendar.VH_C07_NewLunar", params={"Y": Y, "MO": mo}))
     return us
 
 
